@@ -47,7 +47,21 @@ ItemOK(a, b) ==
                           /\ (\A rg \in a.cols : rg[1] >= 0) => a.cols = {<<b.cols[i][1], b.cols[i][2]>> : i \in DOMAIN b.cols}
        [] a.k = "input" -> a.s = b.s /\ a.caps = b.caps
        [] OTHER -> TRUE
-RespOK(spec, obs) == Len(spec) = Len(obs) /\ \A i \in 1..Len(spec) : ItemOK(spec[i], obs[i])
+RespSame(spec, obs) == Len(spec) = Len(obs) /\ \A i \in 1..Len(spec) : ItemOK(spec[i], obs[i])
+\* optional output ("opt" items: text the manual leaves open) is either all there or all absent;
+\* adjacent printed text is one item, as in the recorded response
+RECURSIVE Merge(_, _, _)
+Merge(r, i, acc) ==
+  IF i > Len(r) THEN acc
+  ELSE IF r[i].k = "out" /\ acc # <<>> /\ acc[Len(acc)].k = "out"
+       THEN Merge(r, i + 1, [acc EXCEPT ![Len(acc)] = [k |-> "out", s |-> @.s \o r[i].s]])
+       ELSE Merge(r, i + 1, Append(acc, r[i]))
+WithOpt(r, keep) == Merge([i \in 1..Len(SelectSeq(r, LAMBDA x : keep \/ x.k # "opt")) |->
+                             LET x == SelectSeq(r, LAMBDA y : keep \/ y.k # "opt")[i] IN
+                             IF x.k = "opt" THEN [k |-> "out", s |-> x.s] ELSE x], 1, <<>>)
+HasOpt(r) == \E i \in 1..Len(r) : r[i].k = "opt"
+RespOK(spec, obs) == IF HasOpt(spec) THEN RespSame(WithOpt(spec, TRUE), obs) \/ RespSame(WithOpt(spec, FALSE), obs)
+                     ELSE RespSame(spec, obs)
 
 \* ---- comparing the probe with the abstract state (only at a prompt)
 HadError(resp) == \E i \in 1..Len(resp) : resp[i].k = "err" /\ \E e \in resp[i].errs : e.code # EBreak
